@@ -210,9 +210,22 @@ func checkOn(p *proc, tmo int) string {
 }
 
 // Check runs check-sat on the current stack; lastProc is the process holding the model.
-func (s *Solver) Check() string {
+func (s *Solver) Check() (res string) {
 	t0 := time.Now()
-	defer func() { s.Time += time.Since(t0) }()
+	defer func() {
+		d := time.Since(t0)
+		s.Time += d
+		if d > 2*time.Second && os.Getenv("GOSYM_SLOWLOG") != "" {
+			last := ""
+			if fr := s.stack[len(s.stack)-1]; len(fr) > 0 {
+				last = fr[len(fr)-1]
+			}
+			if len(last) > 300 {
+				last = last[:300]
+			}
+			fmt.Fprintf(os.Stderr, "SLOW %.1fs %s: %s\n", d.Seconds(), res, last)
+		}
+	}()
 	s.Queries++
 	r := checkOn(s.main, s.tmo)
 	s.last = s.main
